@@ -65,7 +65,7 @@ theorem signed_enc_roundtrip (k : Crypto) (hk : Sound k) (iv v typ ts : Str)
     rcases ha with rfl | rfl | rfl | rfl
     · exact ts_nobar ht
     all_goals exact hk.b64_nobar _)]
-  have hu := lv_pack_unpack [payloadOf v typ, ts, k.b64 (k.mac (payloadOf v typ ++ ts))]
+  have hu := lv_pack_unpack [payloadOf v typ, ts, k.b64 (k.mac (macInput (payloadOf v typ) ts))]
     (by simpa [LastOk] using hk.b64_last _)
   simp [verDec, hk.unb64_b64, hk.aead, hu, payload_split hs]
 
@@ -106,7 +106,7 @@ theorem crypt_roundtrip (k : Crypto) (hk : Sound k) (iv v typ ts : Str)
 /-- what the provider ever encrypted in signed+encrypted mode -/
 def GenuinePlain (k : Crypto) (G : Str → Str → Str → Prop) (m : Str) : Prop :=
   ∃ v typ ts, G v typ ts ∧ NoSep v typ ∧ TsOk ts ∧
-    m = pack [payloadOf v typ, ts, k.b64 (k.mac (payloadOf v typ ++ ts))]
+    m = pack [payloadOf v typ, ts, k.b64 (k.mac (macInput (payloadOf v typ) ts))]
 
 /-- ciphertext integrity (INT-CTXT, the security assumption on AES-GCM): whatever decrypts
     under the provider's key was encrypted by the provider -/
@@ -136,45 +136,58 @@ theorem signed_enc_unique_parse (k : Crypto) (hk : Sound k) (G : Str → Str →
   | none => simp [h1, h2, h3, h4] at h
   | some m =>
     obtain ⟨v, typ, ts, hG, hs, ht, hm⟩ := hint _ _ _ _ h4
-    have hu := lv_pack_unpack [payloadOf v typ, ts, k.b64 (k.mac (payloadOf v typ ++ ts))]
+    have hu := lv_pack_unpack [payloadOf v typ, ts, k.b64 (k.mac (macInput (payloadOf v typ) ts))]
       (by simpa [LastOk] using hk.b64_last _)
     simp [h1, h2, h3, h4, hm, hu, hk.unb64_b64, payload_split hs] at h
     obtain ⟨rfl, rfl, rfl⟩ := h
     exact hG
 
-/-- signed-only mode does NOT have the unique-parse property (F-C17-a): the MAC input is the
-    bare concatenation payload ++ timestamp, so moving the first digit of the timestamp to the
-    end of the payload keeps the MAC valid.  For every crypto instance. -/
-theorem signed_boundary_shift_counterexample (k : Crypto) (hk : Sound k) :
-    let genuine := make k .signed [] [104, 105] [115] [49, 55, 48]        -- "hi", "s", "170"
-    let tagPart := k.b64 (k.mac (payloadOf [104, 105] [115] ++ [49, 55, 48]))
-    parse k .signed genuine = .content [104, 105] [115] [49, 55, 48] ∧
-    parse k .signed (join1 bar [[55, 48], payloadOf [104, 105] [115, 49], tagPart])
-      = .content [104, 105] [115, 49] [55, 48] := by
-  have hb := hk.b64_nobar (k.mac (payloadOf [104, 105] [115] ++ [49, 55, 48]))
-  constructor
-  · apply signed_roundtrip k hk
-    · simp
-    · simp [NoSep, Split.SepFree, Split.Inner, Split.hasDiv, colon_eq]
-    · simp [TsOk, isDig_eq]
-    · simp [payloadOf, join2, colon_eq, bar_eq]
-  · unfold parse
-    rw [split1_join1 bar _ (by simp) (by
-      intro a ha; simp at ha
-      rcases ha with rfl | rfl | rfl
-      · simp [bar_eq]
-      · simp [payloadOf, join2, colon_eq, bar_eq]
-      · exact hb)]
-    have e : payloadOf [104, 105] [115, 49] ++ [55, 48] = payloadOf [104, 105] [115] ++ [49, 55, 48] := by
-      simp [payloadOf, join2]
-    simp only [verDec]
-    rw [hk.unb64_b64, e]
-    simp [payloadOf, join2, split2, split2Aux, colon_eq]
+/-- unique parse in signed-only mode (after the fix for F-C17-a): if the tag the adversary
+    presents is one the provider produced for some genuine cookie (unforgeability) and HMAC is
+    collision free on the messages involved (`Function.Injective k.mac`, the idealisation), then any
+    three-part cookie that is accepted parses to exactly the content of that genuine cookie —
+    whatever was done to timestamp and payload.  The step that needs the fix is `pack_injective`:
+    the MAC input frames payload and timestamp -/
+theorem signed_unique_parse (k : Crypto) (G : Str → Str → Str → Prop)
+    (hinj : Function.Injective k.mac) (t payload b64mac : Str) (v' typ' ts' : Str)
+    (hknown : ∀ macv, k.unb64 b64mac = some macv →
+      ∃ v typ ts, G v typ ts ∧ NoSep v typ ∧ macv = k.mac (macInput (payloadOf v typ) ts))
+    (h : parse k .signed (join1 bar [t, payload, b64mac]) = .content v' typ' ts')
+    (hsplit : split1 bar (join1 bar [t, payload, b64mac]) = [t, payload, b64mac]) :
+    G v' typ' ts' := by
+  unfold parse at h
+  rw [hsplit] at h
+  simp only [verDec] at h
+  cases h1 : k.unb64 b64mac with
+  | none => simp [h1] at h
+  | some macv =>
+    obtain ⟨v, typ, ts, hG, hs, hm⟩ := hknown macv h1
+    simp only [h1] at h
+    by_cases hv : macv = k.mac (macInput payload t)
+    · have hin : macInput (payloadOf v typ) ts = macInput payload t := hinj (hm.symm.trans hv)
+      have hl : [payloadOf v typ, ts] = [payload, t] := pack_injective _ _ hin
+      simp only [List.cons.injEq, and_true] at hl
+      obtain ⟨hp, ht⟩ := hl
+      subst hp ht
+      simp [hv, payload_split hs] at h
+      obtain ⟨rfl, rfl, rfl⟩ := h
+      exact hG
+    · simp [hv] at h
+
+/-- why the framing matters: the bare concatenation used before the fix is not injective — the first
+    digit of the timestamp can move to the end of the payload (F-C17-a, fixed) -/
+theorem concatenation_is_not_injective :
+    ([104, 105, 58, 58, 115] : Str) ++ [49, 55, 48] = [104, 105, 58, 58, 115, 49] ++ [55, 48] ∧
+    macInput [104, 105, 58, 58, 115] [49, 55, 48] ≠ macInput [104, 105, 58, 58, 115, 49] [55, 48] := by
+  refine ⟨rfl, ?_⟩
+  intro h
+  have := pack_injective _ _ h
+  simp at this
 
 /-- the `::` guard is forced: a value containing `::` does not parse back (F-C17-b) -/
 theorem separator_counterexample (k : Crypto) (hk : Sound k) :
     parse k .signed (make k .signed [] [97, 58, 58, 98] [115] [49]) = .rejected := by
-  have hb := hk.b64_nobar (k.mac (payloadOf [97, 58, 58, 98] [115] ++ [49]))
+  have hb := hk.b64_nobar (k.mac (macInput (payloadOf [97, 58, 58, 98] [115]) [49]))
   unfold make parse
   simp only [signEnc]
   rw [if_neg (by simp), split1_join1 bar _ (by simp) (by
